@@ -181,6 +181,7 @@ CLI_FLAGS = {
     "exclude": ("--exclude", "list"), "exclude_dir": ("--exclude_dir", "list"), "extensions": ("-e", "list"), "macro": ("-m", "list"),
     "warn": ("-w", "flag"), "force": ("-f", "flag"), "graph": ("-g", "flag"), "quiet": ("-q", "flag"), "dbg": ("--debug", "flag"),
     "include": ("-I", "list"), "externalize": ("--externalize", "flag"), "search": ("--no-search", "negflag"),
+    "external": ("-L", "table"),
 }
 
 
@@ -244,6 +245,9 @@ def evaluate(fmt, options, cli=None, cwd="proj", config_extra=None):
                 argv += [flag, x]
         elif kind == "one":
             argv += [flag, v]
+        elif kind == "table":
+            for kk, vv in v.items():
+                argv += [flag, f"{kk} = {vv}"]
         elif kind == "flag":
             assert v is True
             argv.append(flag)
@@ -476,6 +480,8 @@ def gen_cases(tier):
                 yield ("cli", name, fmt, True, False, True)
             elif k == "one":
                 yield ("cli", name, fmt, "from_file", "from_cli", "from_config")
+            elif k == "table":
+                yield ("cli", name, fmt, {"filep": "http://file.example/p"}, {"clip": "http://cli.example/p", "clip2": "../local/doc"}, {"cfgp": "http://config.example/p"})
             else:
                 yield ("cli", name, fmt, ["from_file"], ["from_cli", "cli2"], ["from_config"])
     for fmt in ("md", "toml", "config"):
@@ -487,6 +493,10 @@ def gen_cases(tier):
                 yield ("illtyped", fmt, name, "maybe")
             if cls == "int":
                 yield ("illtyped", fmt, name, "many")
+            if cls == "dict" and fmt == "md":
+                # an entry of a key/value table without its separator
+                yield ("illtyped", fmt, name, "entry_without_separator")
+                yield ("illtyped", fmt, name, "docs https//no.separator/here")
 
 
 def work(chunk):
